@@ -3,6 +3,9 @@
 // break/continue, wireChild, setFNext, and the execution loop runCfg with the branch closure;
 // and, for Model/CfgSlots.lean, the slot-choosing switches of the assignStmt / binaryExpr / unaryExpr
 // cases, isArithmeticAction, and the closures assign, _return, neg, bitNot (run.go), add, quo, lower (op.go).
+// For Model/Closures.lean (variables as cells, :=, function literals, loop variables): fingerprints of the
+// frame functions, the closures of run.go that allocate / copy cells, the scope functions and the cfg.go
+// clauses that allocate slots (closureHashes), and the four choices the model takes as parameters (mechFacts).
 package main
 
 import (
@@ -170,7 +173,9 @@ func main() {
 			}
 			fmt.Fprintf(&b, "(%s, %s)", common.LeanStr(r[0]), common.LeanStr(r[1]))
 		}
-		b.WriteString("]\nend YaegiVerif.Generated.C01\n")
+		b.WriteString("]\n")
+		b.WriteString(closureTables(repo, cfg, fset2, f2))
+		b.WriteString("end YaegiVerif.Generated.C01\n")
 		return b.String(), nil
 	})
 }
